@@ -282,7 +282,10 @@ def cmd_check(pid, tier, seed):
     scan = scan_assumptions(sorted(f for f in files_scanned if f))
     status = "violation" if out_lines else ("undecided" if undecided else "ok")
     ev = dict(
-        property_id=pid, tier=tier, seed=seed, level="proof",
+        property_id=pid, tier=tier, seed=seed,
+        # a property whose units are all bounded stand-ins has no discharged (unbounded) obligation to report:
+        # its evidence is then honestly labelled "other" (bounded contract checks), never "proof"
+        level=("proof" if obligations > 0 else "other"),
         coverage=dict(
             obligations=obligations, discharged=discharged,
             checker_cmd=" ; ".join(c for c in cmds if c) + " ; per harness: goto-cc/goto-instrument + cbmc " + " ".join(kanitrack.CBMC_FLAGS) + " [--unwind N] --slice-formula <harness>.out --json-ui",
@@ -297,7 +300,8 @@ def cmd_check(pid, tier, seed):
             mechanical_assumption_scan=scan,
             status=status, undecided_reasons=undecided, known_findings=kf_lines, fixed_findings=[f for f in fixed if f["property"] == pid],
             repo_head=repo_head(), repo_dirty=repo_dirty(),
-            explanation=P.get("scope", ""),
+            explanation=(P.get("scope", "") + ("" if obligations > 0 else " NOTE: every unit of this property that ran in this tier is a BOUNDED stand-in "
+                         "(bound stated per harness under bounded_units); nothing is counted as proved.")),
         ),
         assumptions=assumptions, wall_s=round(wall, 2), violations=len(out_lines),
     )
